@@ -25,8 +25,12 @@ func checkC18(c *core.Ctx, r *core.Report) {
 		"(2) who-may-read — every *os.File that can hold a column (.csg) file (value-flow closure from the .csg opens and the reader structs' fd fields) is read only inside utils.ChecksumFile; " +
 		"(3) every caller of ChecksumFile.ReadAt runs its decoders and returns data only on the err == nil edge; " +
 		"(4) loaded-block cache keys of the readers (SegmentFileReader.currBlockNum/isBlockLoaded, TimeRangeReader.loadedBlock/loadedBlockNum) are set only where the checksummed load is known to have succeeded; " +
+		"(6) NARROWSUM — in the reader packages no length decoded from a file is added to or multiplied with another value in its narrow unsigned type before it is widened (the sum wraps and a damaged length passes the bounds check built on it); " +
+		"(7) DRAIN — a worker goroutine fed through an unbuffered channel (producer sends without select and closes at the end) leaves its receive loop only through the closed channel; " +
 		"(5) writer side — writeWip writes the column file only through AppendPartialChunk and every success return is preceded by Flush."
 	r.NotCovered = "robustness of the un-checksummed decoders (block summaries, SST, PQMR, sort index, tags tree, series blocks), bounds of on-disk lengths inside a CRC-valid block, isolation between segments"
+	c18NarrowSum(c, r)
+	c18Drain(c, r)
 	sm := newSummaries(c)
 
 	crcFn := c.ExtObj("hash/crc32", "ChecksumIEEE")
